@@ -44,6 +44,19 @@ def main():
         print(f"no check for {a.prop}")
         return 3
     chk = Check(a.prop, a.tier, seed)
+    # engine differential self-test (pyvc/selftest.py): the interpreter must agree with CPython on the regression suite
+    from pyvc import selftest
+    try:
+        bad = selftest.run()
+    except Exception:
+        traceback.print_exc()
+        bad = ["engine self-test crashed"]
+    if bad:
+        for b in bad:
+            print(f"CHECKER-FAULT property={a.prop} engine self-test: {b}")
+        return 3
+    chk.extra["engine_selftest"] = {"cases": len(selftest.CASES), "mismatches": 0, "outside_subset": getattr(selftest.run, "skipped", [])}
+    chk.trust("engine self-test: %d small programs executed by CPython and by pyvc with identical results (pyvc/selftest.py), every run" % len(selftest.CASES))
     try:
         return mod.run(chk)
     except Exception:
